@@ -11,8 +11,13 @@ import traceback
 VERIF = os.path.dirname(os.path.dirname(os.path.abspath(__file__)))
 REPO = os.path.realpath(os.environ.get("VERIF_REPO", "/repo"))
 NPROC = int(os.environ.get("VERIF_NPROC", "16"))
-EVIDENCE_DIR = os.path.join(VERIF, "evidence")
-REPLAY_DIR = os.path.join(VERIF, "replays")
+if "VERIF_REPO" in os.environ:
+    # my own mutation campaign on a scratch copy: never touch the evidence / replays that describe /repo itself
+    EVIDENCE_DIR = os.path.join("/tmp", "verif-scratch-evidence")
+    REPLAY_DIR = os.path.join("/tmp", "verif-scratch-replays")
+else:
+    EVIDENCE_DIR = os.environ.get("VERIF_EVIDENCE_DIR") or os.path.join(VERIF, "evidence")
+    REPLAY_DIR = os.path.join(VERIF, "replays")
 KNOWN_FILE = os.path.join(VERIF, "KNOWN_FINDINGS.txt")
 
 
